@@ -1338,12 +1338,19 @@ func convertDateFormat(format string) string {
 		"s": "05", // Seconds with leading zeros
 	}
 
-	result := format
-	for phpFormat, goFormat := range replacements {
-		result = strings.ReplaceAll(result, phpFormat, goFormat)
+	// Translate character by character: replacing one letter after the other
+	// would translate letters of already translated text again ("D" -> "Mon" ->
+	// "1on"), in an order that depends on map iteration
+	var result strings.Builder
+	for i := 0; i < len(format); i++ {
+		if goFormat, ok := replacements[format[i:i+1]]; ok {
+			result.WriteString(goFormat)
+		} else {
+			result.WriteByte(format[i])
+		}
 	}
 
-	return result
+	return result.String()
 }
 
 // Additional filter implementations
@@ -1414,8 +1421,9 @@ func (e *CoreExtension) filterFirst(value interface{}, args ...interface{}) (int
 		}
 		return nil, nil
 	case map[string]interface{}:
-		for _, val := range v {
-			return val, nil // Return first value found
+		// The first element of a map is the value of its smallest key
+		if keys := sortedMapKeys(reflect.ValueOf(v)); len(keys) > 0 {
+			return v[keys[0].String()], nil
 		}
 		return nil, nil
 	}
@@ -1431,8 +1439,8 @@ func (e *CoreExtension) filterFirst(value interface{}, args ...interface{}) (int
 		}
 		return nil, nil
 	case reflect.Map:
-		for _, key := range rv.MapKeys() {
-			return rv.MapIndex(key).Interface(), nil // Return first value found
+		if keys := sortedMapKeys(rv); len(keys) > 0 {
+			return rv.MapIndex(keys[0]).Interface(), nil
 		}
 		return nil, nil
 	}
@@ -1637,7 +1645,8 @@ func (e *CoreExtension) filterKeys(value interface{}, args ...interface{}) (inte
 	if rv.Kind() == reflect.Map {
 		// For maps, return the keys as a slice of the same type as the keys
 		keys := make([]interface{}, 0, rv.Len())
-		for _, key := range rv.MapKeys() {
+		// In a fixed order, like the keys of a map[string]interface{} above
+		for _, key := range sortedMapKeys(rv) {
 			if key.CanInterface() {
 				keys = append(keys, key.Interface())
 			}
